@@ -4,6 +4,7 @@ CONSTANTS
   Containers = {1, 2, 3}
   Nums = {4, 5}
   DevFirstWins = TRUE
+  DropU = {}
   Emit = FALSE
 INVARIANTS Deterministic LatestWins
 CHECK_DEADLOCK FALSE
